@@ -55,6 +55,18 @@ CHECKS = {
   "Explicit-state breadth-first search to closure for Table, InlineTable, Array, ArrayOfTables and toml::Map: a state is (real container, reference ordered map / vector), a transition is one real API call over keys {a,b,c} and a small value set (including sub-tables, inline tables, arrays of tables and placeholders left by mutable indexing), applied to both; after every transition the return value and a full observation (len, is_empty, iteration order, get / contains_* / get_key_value per key, into_iter, printed and re-parsed text, the dyn TableLike view) must agree. States are deduplicated by the Debug form of the real object plus the model; the search reports states, transitions, depth and closure.",
   "Item::None is read as 'absent'; reserved slots are invisible and only constrain where a later insert lands (the model mirrors the documented mechanics per container); array lengths bounded by 3-4; toml::Map's insertion-ordered configuration is searched by the cfg engine's binary (C18).",
   "explicit-state BFS over real API call histories with canonical-state deduplication; step-wise conformance with a reference container"),
+ "C07": ("model_checking", "tree", "5/C07",
+  "Complete enumeration of the values of a family of 15 derive(Serialize, Deserialize) root types over small leaf domains (enums of all four variant kinds inside sequences inside maps, optional tables, arrays of tables, mixed arrays via untagged enums, unit-variant map keys, every integer width at its edges, f32/f64 incl. NaN/inf/-0, chars, date-times in every position, tuples, newtypes, variants holding tables, and the documented unsupported shapes in struct-field, map-value and root position); six serializers; Ok(text) must be valid TOML (specification model) and decode to an equal value through both crates, Err is accepted only on the documented unsupported shapes.",
+  "NaNs compare equal regardless of sign (documented normalisation of the serde serializers); the family is finite and fixed, deeper nestings than it contains are outside the bound.",
+  "exhaustive enumeration of a finite value family through all serializers; round-trip and validity oracles"),
+ "C13": ("model_checking", "tree", "5/C13",
+  "For every serializable value of the same family and its text: nine decoding routes must all succeed and return the value; Value::try_from / Table::try_from must equal parsing the serialized text; for every text of the document universes (token sequences, statement sequences, decor skeletons, date-time and number edge literals, corpus mutants) seven routes into toml::Value / toml::Table must agree on success and on the tree.",
+  "Law-based oracle (routes agree, round trip); no reference model involved.",
+  "exhaustive enumeration of values and documents; all-routes-agree oracle"),
+ "C17": ("model_checking", "tree", "5/C17",
+  "For every serializable value of the family: serialization is deterministic, reaches a fixed point in one step through the type and through toml::Table, Display equals to_string, and plain / pretty / toml_edit-pretty outputs decode equal. For every toml::Value table with 3-4 keys: every assignment of 7 entry kinds (scalar, array, array of tables, table, mixed array, empty table, empty array) x every insertion order x 2 nesting depths through three printers: valid TOML (specification model), equal decode, fixed point.",
+  "This binary is the default (sorted map) configuration; the insertion-ordered configuration runs the same value-tree enumeration in the cfg engine (C18).",
+  "exhaustive enumeration of value trees x insertion orders; fixed-point and validity oracles"),
 }
 
 NOT_YET = {}
